@@ -137,6 +137,12 @@ def handle (ts : Toks) : String :=
          (fun c => "plug-not-torn-down-exactly-once:" ++ c) else []) ++
       (if status == "returned" && abortSetBeforeFinal && outcome != "ABORTED" && !kiOutside then ["outcome-" ++ outcome ++ "-instead-of-ABORTED"] else []) ++
       (if abortSetBeforeFinal && outcome == "PASS" then ["aborted-run-passed"] else []) ++
+      -- an abort call that returned while plug tearDown was still going on is an abort of a running test
+      (match firstRet with
+       | some p => if status == "returned" && !kiOutside && outcome != "ABORTED" &&
+                      ((stream.drop (p + 1)).any (·.startsWith "pt:")) then
+                     ["abort-returned-before-plug-teardown-ended-but-outcome-" ++ outcome] else []
+       | none => []) ++
       (if sigBeforeWait then ["sigint-before-execute-entered-its-wait:KeyboardInterrupt-escapes-without-finalization"]
        else if sigDuringOutput then ["sigint-during-output-stage:KeyboardInterrupt-skips-output-callbacks"]
        else if status == "returned" && cbs.length != 1 then ["callback-count-" ++ toString cbs.length] else []) ++
